@@ -41,6 +41,9 @@ def gen_cases(tier, seed):
             c['stream_failures'] = k in (2, 5, 6)     # stream() over elements whose handler raises, return_exceptions=True
             if k == 3:
                 c['server_backlog'], c['client_backlog'] = 2, 3   # tiny per-connection / client queues
+    # a request that cannot be transported, among ordinary ones
+    for i, what in enumerate(['response', 'payload', 'deep-payload'] * (1 if tier == 'quick' else 6)):
+        cases.append({'kind': 'socket-poison', 'what': what, 'connections': [1, 2, 3][(i // 3 + i) % 3], 'rounds': 2, 'seed': rng.randrange(1 << 30)})
     for i in range(8 if tier == 'quick' else 100):
         cases.append({'kind': 'pipe', 'steps': rng.choice([6, 20]), 'seed': rng.randrange(1 << 30)})
     # one side sends its last object and ends at once; the other side is slow to get to its first recv
@@ -349,9 +352,84 @@ def run_pipe(case):
             'sample': {'kind': 'pipe', 'objects': obs['pipe_objects'], 'largest_bytes': obs['max_pipe_object'], 'server_received': len(s_got), 'client_received': len(c_got)}}
 
 
+def run_socket_poison(case):
+    """One request that cannot be transported (its payload, or the handler's response, cannot be pickled) among ordinary ones on the same
+    connection(s): that request must end with an error in bounded time, and every other request must still get its own response."""
+    import mpservice.multiprocessing as mm
+    import mpservice.socket as MS
+
+    viol = []
+    obs = {'socket_cases': 1, 'poison_cases': 1, 'requests': 0, 'failing_requests': 0, 'bytes_sent': 0}
+    d = tempfile.mkdtemp(prefix='vf-c18-')
+    path = os.path.join(d, 'sock')
+    srv = mm.Process(target=targets.c18_server, args=(path,))
+    srv.start()
+    box = {}
+
+    def lifetime():
+        with MS.SocketClient(num_connections=case['connections'], connection_timeout=30, path=path) as client:
+            for rd in range(case['rounds']):
+                for i in range(3):
+                    y = client.request('/echo', ('before', rd, i), response_timeout=20)
+                    obs['requests'] += 1
+                    if y != ('before', rd, i):
+                        viol.append({'mech': 'socket/wrong-response', 'msg': f'/echo gave {y!r}'})
+                        return
+                t0 = time.monotonic()
+                try:
+                    if case['what'] == 'response':
+                        client.request('/unpicklable', rd, response_timeout=4)
+                    elif case['what'] == 'payload':
+                        client.request('/echo', (rd, threading.Lock()), response_timeout=4)
+                    else:
+                        deep = []
+                        for _ in range(100_000):
+                            deep = [deep]
+                        client.request('/echo', deep, response_timeout=4)  # pickling recurses too deep
+                    box.setdefault('poison_outcome', []).append('returned')
+                except Exception as e:  # noqa: BLE001
+                    box.setdefault('poison_outcome', []).append(type(e).__name__)
+                    obs['failing_requests'] += 1
+                box['poison_s'] = max(box.get('poison_s', 0), time.monotonic() - t0)
+                # every connection is used again
+                for i in range(3 * case['connections']):
+                    try:
+                        y = client.request('/echo', ('after', rd, i), response_timeout=6)
+                    except Exception as e:  # noqa: BLE001
+                        viol.append({'mech': 'socket/later-request-unanswered-after-untransportable-' + case['what'],
+                                     'msg': f'after a request whose {case["what"]} cannot be pickled ended with {box["poison_outcome"][-1]}, request #{i} on the same client '
+                                            f'({case["connections"]} connection(s)) got {e!r} instead of its response'})
+                        return
+                    obs['requests'] += 1
+                    if y != ('after', rd, i):
+                        viol.append({'mech': 'socket/wrong-response', 'msg': f'/echo gave {y!r} for {("after", rd, i)!r}'})
+                        return
+            box['t_exit'] = time.monotonic()
+        box['exit_s'] = time.monotonic() - box['t_exit']
+
+    try:
+        watch.run_bounded(lifetime, 100, 'socket client with an untransportable request')
+    except watch.Hang as h:
+        viol.append({'mech': 'socket/hang', 'msg': h.what + f' ({case["what"]})', 'stacks': h.stacks})
+    except watch.Inconclusive as e:
+        return {'violations': viol, 'obs': obs, 'inconclusive': str(e), 'exit_after': True}
+    finally:
+        try:
+            srv.kill()
+        except Exception:
+            pass
+        shutil.rmtree(d, ignore_errors=True)
+    if not viol and box.get('exit_s', 0) > 20:
+        viol.append({'mech': 'socket/client-exit-waits-for-untransportable-request', 'msg': f'leaving the client took {box["exit_s"]:.1f} s after a request whose {case["what"]} cannot be pickled'})
+    return {'violations': viol[:2], 'obs': obs, 'nontrivial': True, 'sig': repr((case['what'], case['connections'])), 'exit_after': True,
+            'sample': {'kind': 'socket-poison', 'what': case['what'], 'connections': case['connections'], 'poison_outcomes': box.get('poison_outcome'), 'requests': obs['requests']}}
+
+
 def run_case(case):
     if case['kind'] == 'socket':
         return run_socket(case)
+    if case['kind'] == 'socket-poison':
+        return run_socket_poison(case)
     return run_pipe(case)
 
 
@@ -361,4 +439,4 @@ def decide_inconclusive(obs, results, cases):
     return None
 
 
-RULE = RULE + '; handlers raise 12 exception classes; /echo requests incl. surrogate-escaped strings and str/bytes subclasses; TCP transport; failing stream elements; tiny backlogs; late-reader pipe cases (known finding)'
+RULE = RULE + '; handlers raise 12 exception classes; /echo requests incl. surrogate-escaped strings and str/bytes subclasses; TCP transport; failing stream elements; tiny backlogs; late-reader pipe cases (known finding); a request whose payload or response cannot be pickled among ordinary requests on the same connections'
